@@ -359,7 +359,11 @@ def subdivide_loop(vertices, faces, iterations=None):
 
         # beta = 1 / k * (5 / 8 - (3 / 8 + 1 / 4 * np.cos(2 * np.pi / k)) ** 2)
         # simplified with sympy.parse_expr('...').simplify()
-        beta = (40.0 - (2.0 * np.cos(2 * np.pi / k) + 3) ** 2) / (64 * k)
+        # a vertex which is not referenced by any face has no neighbors
+        with np.errstate(divide="ignore", invalid="ignore"):
+            beta = (40.0 - (2.0 * np.cos(2 * np.pi / k) + 3) ** 2) / (64 * k)
+        # leave such a vertex where it is rather than dividing by zero
+        beta[k == 0] = 0.0
         even = (
             beta[:, None] * vertices_[neighbors].sum(1)
             + (1 - k[:, None] * beta[:, None]) * vertices
